@@ -31,6 +31,17 @@ CHECKS = {
    note=TB + 'prior() is the shipped constant 1; dkl is defined only where q is finite wherever p is.',
    technique='Lean 4 proof over LogP R (list induction, Gibbs inequality) + differential correspondence',
    design='5/C10'),
+ 'C03': dict(
+   text='Theorems over the reals for all amplitudes, positive standard deviations and ratios: Hinkley coefficient a > 0 (every '
+        'divisor non-zero), the completing-the-square exponent identity, Cauchy-Schwarz (exponent of d <= 0, no overflow), closed '
+        'form strictly positive, dependence on the modelled amplitudes only through their magnitudes, symmetry in the sign of r, '
+        'positivity/definedness for any fractional error (0 replaced by 1e-24), product over stations, and the closed form EQUALS '
+        'the defining integral of |y| N(zy) N(y) dy (proved with FTC on half-lines and the Gaussian integral). Tie: ratio_pdf / '
+        'amplitude_ratio_ln_pdf vs the executable model; oracle on the real code incl. quadrature of the defining integral and of '
+        'the normalisation. Partial: normalisation to one over r in (0,inf) is tested by quadrature, not proved.',
+   note=TB + 'scipy.stats.norm.cdf is modelled as 1/2(1+erf(x/sqrt2)); comparison tolerance scales with Hinkley c (conditioning of the coded exponent).',
+   technique='Lean 4 proof (algebra + improper integrals in Mathlib) + differential correspondence; quadrature only inside the search oracle',
+   design='5/C03'),
  'C04': dict(
    text='Theorems over the reals for slices of any length and any -inf pattern: log-sum-exp exactness with dV, -inf iff all '
         'entries -inf, commutation with adding a constant, every exp argument <= 0 with one equal to 0 (so log argument in '
